@@ -2,6 +2,7 @@
  *
  * FQV_FAULT_PATH  substring identifying the target path
  * FQV_FAULT_PLAN  comma-separated deviations  open:<k>:<ERRNO>  |  write:<k>:<ERRNO>  |  write:<k>:SHORT1|SHORTHALF|SHORTLAST
+ *                 (a '+' after the class makes it persistent: the k-th call and every later one of that kind)
  *                 (k = 1-based index of the call on the target path / on a descriptor of the target)
  * FQV_FAULT_LOG   file receiving one line per intercepted call on the target
  */
@@ -16,7 +17,7 @@
 #include <sys/types.h>
 #include <unistd.h>
 
-struct dev { int is_write; int k; int err; int shortmode; };
+struct dev { int is_write; int k; int err; int shortmode; int persistent; };
 static struct dev plan[16];
 static int nplan = -1;
 static const char *target;
@@ -42,6 +43,11 @@ static int errno_of(const char *s) {
     if (!strcmp(s, "EIO")) return EIO;
     if (!strcmp(s, "EDQUOT")) return EDQUOT;
     if (!strcmp(s, "EINTR")) return EINTR;
+    if (!strcmp(s, "ETXTBSY")) return ETXTBSY;
+    if (!strcmp(s, "EBUSY")) return EBUSY;
+    if (!strcmp(s, "EAGAIN")) return EAGAIN;
+    if (!strcmp(s, "ETIMEDOUT")) return ETIMEDOUT;
+    if (!strcmp(s, "EFBIG")) return EFBIG;
     return 0;
 }
 
@@ -67,8 +73,11 @@ static void init(void) {
             char kind[16], what[32];
             int k;
             if (sscanf(tok, "%15[a-z]:%d:%31s", kind, &k, what) == 3) {
-                struct dev d = {0, k, 0, 0};
+                struct dev d = {0, k, 0, 0, 0};
                 d.is_write = !strcmp(kind, "write");
+                /* a trailing '+' makes the deviation persistent: the k-th call and every later one of that kind */
+                size_t wl = strlen(what);
+                if (wl > 1 && what[wl - 1] == '+') { d.persistent = 1; what[wl - 1] = 0; }
                 if (!strcmp(what, "SHORT1")) d.shortmode = 1;
                 else if (!strcmp(what, "SHORTHALF")) d.shortmode = 2;
                 else if (!strcmp(what, "SHORTLAST")) d.shortmode = 3;
@@ -93,7 +102,7 @@ static int is_target(const char *path) { return target && path && strstr(path, t
 
 static struct dev *find(int is_write, int k) {
     for (int i = 0; i < nplan; i++)
-        if (plan[i].is_write == is_write && plan[i].k == k) return &plan[i];
+        if (plan[i].is_write == is_write && (plan[i].k == k || (plan[i].persistent && k >= plan[i].k))) return &plan[i];
     return NULL;
 }
 
